@@ -5,7 +5,7 @@
    these models by coq/tie/Wave_Tie*.v on every run. *)
 From Coq Require Import Reals List.
 From Coquelicot Require Import Complex.
-From OdakV Require Import Base.RealAux Wave.Fields Wave.Kernels Wave.Steps.
+From OdakV Require Import Base.RealAux Wave.Fields Wave.Kernels Wave.Steps Wave.Upsample.
 Import ListNotations.
 Open Scope R_scope.
 
@@ -59,3 +59,11 @@ Theorem C03_shift_equivariant : forall (T : fld -> fld) (Ph : fld),
   forall u K A, cust (T u) K A = T (cust u K A).
 Proof. intros T Ph H1 H2. eapply custom_shift; eassumption. Qed.
 End Contracts.
+
+(* scale > 1 (impulse-response methods): zero insertion on the finer grid is linear, so the whole path
+   custom (upsample s u) K A is linear as well *)
+Theorem C03_upsample_linear : forall s a b u v,
+  upsample s (fadd (fscal a u) (fscal b v)) = fadd (fscal a (upsample s u)) (fscal b (upsample s v)).
+Proof. exact upsample_linear. Qed.
+Theorem C03_upsample_zero : forall s, upsample s fzero = fzero.
+Proof. exact upsample_zero. Qed.
